@@ -23,6 +23,7 @@ ASSUMPTIONS = ASSUMED_SYMPY + [
     "operator valued quantities are abstracted as formal sums of words of atoms (wave functions, Hamiltonian parts, excitation strings) with commutative coefficients: the ORDER of the operator factors in a product is part of the word",
     "Indices.get_indices / get_generic_indices satisfy their C08/C19 contracts (identical object per name; generic indices never used before)",
     "factorial is an uninterpreted function with factorial(n) >= 1; float literals -1.0 / -0.5 are exact",
+    "gen_term_orders: body verified for term_length 0..4 with itertools.product(seq, repeat=L) by its language semantics (every L-tuple over seq at exactly one position, positions in lexicographic order: assumed, instantiated at the positions of the obligations); callers with a symbolic term_length (expand_norm_factor) use the same statement as an assumed contract (bounded check gen_term_orders.compositions)",
 ]
 TRUSTED = ["RSPT recurrences (specification)", "Cauchy product of power series (lemmas/series.md)"]
 
